@@ -148,7 +148,7 @@ def apply_removal(spec, removed):
 
 def run(ctx):
     fl = import_library()
-    nengines = ctx.scale(40, 1000)
+    nengines = ctx.scale(40, 4000)
     cap = ctx.scale(48, 1024)
     ctx.rule = (
         f"every Engine.is_ready / Engine.process pair observed. Workload: {nengines} valid generated engines (rules with and without and/or, integral and "
